@@ -175,10 +175,17 @@ fn setup(state: u32) -> rspirv::dr::Builder {
     o.append('        _ => return None,')
     o.append("    })\n}")
     o.append("""
-pub fn builder_ids(name: &str, state: u32, next_id: u32, implicit: bool) -> String {
+pub fn builder_ids(name: &str, state: u32, next_id: u32, mode: u32) -> String {
+    let implicit = mode == 1;
     let b0 = setup(state);
     let (sf, sb) = (b0.selected_function(), b0.selected_block());
-    let m = b0.module();
+    let mut m = b0.module();
+    if mode == 2 {
+        // the selected block ends in the instruction that was given the most recently allocated id (as `undef(ty, None)` leaves it)
+        if let (Some(f), Some(bl)) = (sf, sb) {
+            m.functions[f].blocks[bl].instructions.push(rspirv::dr::Instruction::new(spirv::Op::Undef, Some(1), Some(next_id.wrapping_sub(1)), vec![]));
+        }
+    }
     let mut b = rspirv::dr::Builder::verif_from_parts(m, next_id, sf, sb);
     let r = if implicit { call_method_implicit(&mut b, name) } else { call_method(&mut b, name) };
     match r {
@@ -190,18 +197,26 @@ pub fn builder_ids(name: &str, state: u32, next_id: u32, implicit: bool) -> Stri
     o.append("""
 /// the same implicit type request twice, on a module that already holds a type and a constant: ids and declaration counts
 pub fn builder_type_twice(name: &str) -> String {
-    builder_type_twice_mode(name, false)
+    builder_type_twice_mode(name, 0)
 }
 
 /// `explicit`: the second request carries explicit ids (it must then append a declaration with that id even though an identical
 /// declaration exists)
-pub fn builder_type_twice_mode(name: &str, explicit: bool) -> String {
+pub fn builder_type_twice_mode(name: &str, mode: u32) -> String {
+    let explicit = mode == 1;
     let mut b = setup(0);
     let t = b.type_int(32, 0);
     b.constant_bit32(t, 7);
     let n0 = b.module_ref().types_global_values.len();
     let r1 = match call_method_implicit(&mut b, name) { Some(r) => r, None => return "{\\"error\\": \\"unknown or skipped method\\"}".to_string() };
     let n1 = b.module_ref().types_global_values.len();
+    if mode == 2 {
+        // the declaration just made gets a decoration and a debug name before it is requested again
+        if let Some(id) = b.module_ref().types_global_values.last().and_then(|i| i.result_id) {
+            b.decorate(id, spirv::Decoration::Block, vec![]);
+            b.name(id, "t");
+        }
+    }
     let r2 = if explicit { call_method(&mut b, name).unwrap_or_default() } else { call_method_implicit(&mut b, name).unwrap_or_default() };
     let n2 = b.module_ref().types_global_values.len();
     format!("{{\\"first\\": {}, \\"second\\": {}, \\"n0\\": {}, \\"n1\\": {}, \\"n2\\": {}}}", crate::ops::jstr(&r1), crate::ops::jstr(&r2), n0, n1, n2)
